@@ -198,12 +198,12 @@ func (t *transport) handle() {
 		case b := <-responses:
 			req, ok := outstanding[b.Tag]
 			if !ok {
-				// BUG(stevvooe): The exact handling of an unknown tag is
-				// unclear at this point. These may not necessarily fatal to
-				// the session, since they could be messages that the client no
-				// longer cares for. When we figure this out, replace this
-				// panic with something more sensible.
-				panic(fmt.Sprintf("unknown tag received: %v", b))
+				// A reply whose tag is not outstanding: a duplicate, a reply
+				// to a request whose write failed, or a misbehaving server.
+				// Nobody is waiting for it and it must not take the whole
+				// process down, so it is logged and dropped.
+				log.Printf("p9p: dropping reply with unknown tag: %v", b)
+				continue
 			}
 
 			// BUG(stevvooe): Must detect duplicate tag and ensure that we are
